@@ -141,6 +141,16 @@ Theorem C19_optimize_error_refuted :
   eval C19_witness_world (mk_vctx [] [1] true) (optimize C19_witness_expr) = None.
 Proof. split; vm_compute; reflexivity. Qed.
 
+(** The mirror image of the same class: [ancestors(parents(root(), 4294967296), 0)] fails
+    unoptimized (the inner lower bound is out of range) but the optimizer folds the inner
+    range into the empty outer one, so the optimized evaluation succeeds (empty). *)
+Definition C19_witness_expr2 : expr :=
+  EAncestors (EAncestors ERoot (4294967296, 4294967297)%N PR_FULL) (0, 0)%N PR_FULL.
+Theorem C19_optimize_error_refuted_mirror :
+  eval C19_witness_world (mk_vctx [] [1] true) (rrc C19_witness_expr2) = None /\
+  eval C19_witness_world (mk_vctx [] [1] true) (optimize C19_witness_expr2) = Some [].
+Proof. split; vm_compute; reflexivity. Qed.
+
 (** The model's pass list is the pass order of [optimize] in the source. *)
 Example C19_pass_order :
   REVSET_OPTIMIZE_PASSES ++ [REVSET_OPTIMIZE_LAST_PASS] =
